@@ -202,6 +202,9 @@ def to_msgpack_ops(ops):
                lambda t: msgpack.dumps({'type': 3, 'nsp': '/', 'id': [1], 'data': []}),
                lambda t: msgpack.dumps({'type': 2, 'nsp': '/a', 'data': [['x']], 'id': 'i'}),
                lambda t: msgpack.dumps([1, 2, 3]), lambda t: msgpack.dumps({'type': 1, 'nsp': '/nope'}),
+               lambda t: msgpack.dumps({'type': 0}), lambda t: msgpack.dumps({'type': 2, 'data': ['msg', 1]}),
+               lambda t: msgpack.dumps({'type': 2, 'data': ['msg', 1], 'id': 3}), lambda t: msgpack.dumps({'type': 1}),
+               lambda t: msgpack.dumps({'type': 0, 'data': {'t': 1}}), lambda t: msgpack.dumps({'nsp': '/', 'data': ['msg']}),
                lambda t: msgpack.dumps({'type': 5, 'nsp': '/', 'data': ['msg']}), lambda t: b'\x81\xa4type']
     for op in ops:
         if op['op'] not in ('frame', 'frameval'):
@@ -298,7 +301,21 @@ def two_run(cfg, trace, info, server_opts):
             evs = [i for i in im['invokes'] if i[0][2] not in ('connect', 'on_connect')]
             if evs and op['op'] == 'frame' and _undecodable(op['text']):
                 fails.append((None, 'an undecodable frame reached an application handler: %r' % (op,)))
+        if server_opts and server_opts.get('serializer') == 'msgpack' and op['op'] == 'frameval' \
+                and isinstance(op['v'], (bytes, bytearray)) and im['invokes'] and _mp_malformed(op['v']):
+            fails.append((None, 'a msgpack frame that is not a packet map with its mandatory fields reached an application '
+                                'handler: %r -> %r' % (op['v'], im['invokes'])))
     return fails
+
+
+def _mp_malformed(b):
+    """not a msgpack map carrying the mandatory 'type' and 'nsp' fields of a packet"""
+    import msgpack
+    try:
+        d = msgpack.loads(bytes(b))
+    except Exception:   # noqa
+        return True
+    return not (isinstance(d, dict) and 'type' in d and 'nsp' in d)
 
 
 def _undecodable(text):
